@@ -5,6 +5,6 @@ EXTENDS ExclusionList
 MCInits == { [mol |-> <<1, 1, 1, 2>>, ias |-> << <<1, 2>>, <<2, 3>>, <<3, 4>> >>],
              [mol |-> <<1, 1, 2, 2>>, ias |-> << <<2, 1>>, <<4, 3>>, <<2, 3>> >>],
              [mol |-> <<1, 1, 1, 1>>, ias |-> << <<4, 2, 1, 3>> >>] }
-MCPairs == { <<1, 2>>, <<2, 1>>, <<2, 3>>, <<1, 3>>, <<4, 3>>, <<2, 2>> }
-MCLists == { <<3, 1, 2>>, <<1, 4>> }
+MCPairs == { <<1, 2>>, <<2, 1>>, <<4, 3>>, <<2, 2>> }
+MCLists == { <<3, 1, 2>> }
 ====
